@@ -1312,7 +1312,14 @@ fn mode_compose(r: &mut Runner) {
     // a queuing sink that is dropped without ever having been given a metric, around a wrapped sink whose destructor
     // panics or blocks: releasing the wrapped sink is the background thread's business - the caller's drop returns at
     // once and does not unwind, used queue or not
-    for (variant, never_used) in [(0u8, true), (1, true), (0, false), (1, false)] {
+    // (third element: the dropping thread is held right after it has signalled the stop request - schedule point
+    // queuing.stop.signalled - until the queue's thread has finished and gone; only then does it go on to release
+    // whatever the handle still holds. A window of a few instructions in real life, forced here.)
+    let forced_ok = HOOKS.load(std::sync::atomic::Ordering::Relaxed);
+    for (variant, never_used, forced) in [(0u8, true, false), (1, true, false), (0, false, false), (1, false, false), (0, false, true), (0, true, true)] {
+        if forced && !forced_ok {
+            continue;
+        }
         // (a block of this mode runs only for the properties it reports for: a change that breaks a sibling property must
         // not keep this run from reaching its own blocks)
         if SPIN_SEEN.load(std::sync::atomic::Ordering::SeqCst) || r.prop != "C09" {
@@ -1358,7 +1365,28 @@ fn mode_compose(r: &mut Runner) {
             let _ = await_log(&sh, |st| st.log.iter().any(|e| matches!(e, Ev::Exit { .. })));
         }
         let ctx = jobj! {"capacity" => "unbounded", "ops" => format!("drop of a {} queuing sink whose wrapped sink's destructor {}", if never_used { "never used" } else { "used" }, if variant == 1 { "blocks" } else { "panics" })};
-        let dr = in_call("drop", || ctx.clone(), || panics::guard(move || drop(q)));
+        let dr = if forced {
+            arm("queuing.stop.signalled");
+            let t = std::thread::spawn(move || {
+                let _reg = procmon::Registration::new();
+                panics::guard(move || drop(q))
+            });
+            let reached = await_parked("queuing.stop.signalled", std::time::Duration::from_secs(20));
+            if reached {
+                // the queue's thread sees the request, finishes and goes away (or the destructor has run there)
+                let t0 = std::time::Instant::now();
+                while !dropped.load(std::sync::atomic::Ordering::SeqCst) && !procmon::library_tids().is_empty() && t0.elapsed().as_secs() < 20 {
+                    std::thread::sleep(std::time::Duration::from_millis(1));
+                }
+                std::thread::sleep(std::time::Duration::from_millis(5));
+                r.rep().obs("last_drops_held_after_the_stop_signal_until_the_queue_thread_was_gone", 1);
+            }
+            cvh::qmon::release("queuing.stop.signalled");
+            disarm_all();
+            t.join().unwrap_or_else(|_| Err("the dropping thread died".into()))
+        } else {
+            in_call("drop", || ctx.clone(), || panics::guard(move || drop(q)))
+        };
         // give the background thread the time to get to the destructor
         let t0 = std::time::Instant::now();
         while !dropped.load(std::sync::atomic::Ordering::SeqCst) && t0.elapsed().as_secs() < 20 {
@@ -1368,7 +1396,7 @@ fn mode_compose(r: &mut Runner) {
             let mut rep = r.rep();
             rep.eval();
             rep.obs("drops_of_queuing_sinks_whose_wrapped_sink_has_a_hostile_destructor", 1);
-            rep.distinct(&format!("compose|nasty-drop|{}|{}", variant, never_used));
+            rep.distinct(&format!("compose|nasty-drop|{}|{}|{}", variant, never_used, forced));
             if r.prop == "C09" {
                 if let Err(p) = &dr {
                     rep.violation(Violation { property: "C09".into(), rule: "R4".into(), class: "drop-panicked".into(), detail: format!("[{}] drop unwound into the caller: {}", ctx.to_string(), p), replay_args: r.args.to_vec_with(&[]), trace: Json::Null });
